@@ -7,6 +7,7 @@ FUNCTIONS = ["QueueReader::{advance,parse_byte_streams} (MIR)", "PacketHeader::r
 ASSUME = [
     "one QueueReader::advance from a fresh queue state over ANY packet bytes: data packets (any per-stream byte counts within the bound, unequal per attribute, zero allowed) decode to the SPEC-bits values; "
     "index and ignored packets of any legal length move the cursor exactly behind the packet as given by its length field",
+    "ByteStreamReadBuffer::extract for EVERY width (min/max symbolic) over all 9 stream bytes returns the SPEC-bits of the first two values (Kani; the second value starts at a non-aligned bit for most widths)",
     "values straddling packets: C12 O12.4 (reader cut at every byte position); sections anywhere relative to page boundaries: C11 read side",
     "header parsers accept exactly the SPEC-legal headers and return the SPEC fields for all input bytes (Kani)",
     "omitted optional type attributes and lexical XML variants are decided by the XML layer (outside this technique)",
@@ -18,5 +19,6 @@ def run(ctx):
     tier = ctx["tier"]
     obls, samples = mlane.run_scenarios("C03", "O03", spec_packet.scenarios(tier) + spec_iter.scenarios(tier)[:1] + spec_iter.const_scenarios(tier)[:1], ctx, "one packet, any bytes; data streams <= 9 B; device <= 3 pages")
     obls += kp.run_k("C03", "c03", kp.F_HDR, kp.hdr_read_specs(tier), ctx)
+    obls += kp.run_k("C03", "c03b", kp.F_C12, kp.c12_extract_specs(tier), ctx)
     return dict(obligations=obls, functions=FUNCTIONS, assumptions=ASSUME, samples=samples,
                 extra={"engine": "mirsym (MIR -> z3 5.1) + Kani 0.68", "mir_regenerated_from": "/repo working tree"})
